@@ -249,6 +249,7 @@ def stopVerb (s : Stop.State) (ws : List String) : Option (Stop.State × String)
   | ["relall"] => some (s, "ok")
   | ["yield"] => some (s, "ok")
   | ["rel", k] => k.toNat?.map fun _ => (s, "ok")
+  | ["sleep", ms] => ms.toNat?.map fun _ => (s, "ok")
   | ["wsub", k] => k.toNat?.map fun _ => (s, "ok")
   | ["wres", r] => if r == "yes" || r == "no" then some (s, "ok") else none
   | [w, k, r] =>
